@@ -117,7 +117,7 @@ const coreModels = `models:
 func projects() []*Project {
 	var ps []*Project
 	for _, r := range rows {
-		ps = append(ps, &Project{Name: "core_" + r.name, Probe: "core", Univ: true, Config: yamlFor("core_"+r.name, r, coreModels)})
+		ps = append(ps, &Project{Name: "core_" + r.name, Probe: "core", Univ: true, Config: yamlFor("core_"+r.name, r, coreModels+"  Boom: {model: verif/work/farm/cur/core_"+r.name+".Boom}\n")})
 	}
 	// seeded random schemas, each under a different generator configuration
 	for k := 1; k <= 8; k++ {
